@@ -47,3 +47,19 @@ def eq(a, b):
 def close_scalar(a, b):
     ta, tb = sym._num(a, b)
     return ta == tb
+
+
+class Frame:
+    """snapshot of the element terms of symbolic input arrays; `unchanged()` is the python-level frame condition that the
+    code under contract did not write into them"""
+
+    def __init__(self, **arrays):
+        self.arrays = arrays
+        self.snap = {k: [_t(v[idx]) for idx in numpy.ndindex(*v.shape)] for k, v in arrays.items()}
+
+    def unchanged(self):
+        for k, v in self.arrays.items():
+            for t0, idx in zip(self.snap[k], numpy.ndindex(*v.shape)):
+                if not _t(v[idx]).eq(t0):
+                    return False
+        return True
